@@ -148,6 +148,25 @@ func drawRecModel(r *rng.R, kind string) recModel {
 		}
 	}
 	if r.Chance(1, 6) {
+		// the state does not reach the recurrent node straight from a graph input but as the RESULT of another node
+		// (an encoder's final state, a Reshape / Unsqueeze an exporter put in front): an intermediate tensor whose only
+		// reader sits behind the skipped sequence_lens slot
+		shp := &val.V{DT: val.Int64, Shape: []int{3}, Bits: []uint64{1, ^uint64(0), uint64(cfg.Hidden)}}
+		e.Model.Inits = append(e.Model.Inits, mb.Init{Name: "state_shape", V: shp, Raw: r.Bool()})
+		var pre []mb.Node
+		for i := range e.Model.Nodes {
+			in := append([]string{}, e.Model.Nodes[i].In...)
+			for k := range in {
+				if in[k] == "a5" || in[k] == "a6" {
+					pre = append(pre, mb.Node{Op: "Reshape", In: []string{in[k], "state_shape"}, Out: []string{in[k] + "_r"}})
+					in[k] = in[k] + "_r"
+				}
+			}
+			e.Model.Nodes[i].In = in
+		}
+		e.Model.Nodes = append(pre, e.Model.Nodes...)
+		rm.nNodes = len(e.Model.Nodes)
+	} else if r.Chance(1, 6) {
 		// a streaming graph whose state inputs carry the names of its state outputs (the result map can be fed straight
 		// back): the recurrent node re-binds Y_h / Y_c in mid-graph
 		ren := map[string]string{"a5": "Y_h", "a6": "Y_c"}
